@@ -1186,11 +1186,8 @@ class Sum(Expression):
             if ranges == set(children):
                 return One()
             elif ranges > set(children):
-                keep = ranges - set(children)
-                return Sum.safe(
-                    expression=One(),
-                    ranges=frozenset(v for k, v in children.items() if k in keep),
-                )
+                # the joint sums to one, what remains is the (vacuous) sum over the other ranges
+                return Sum.safe(expression=One(), ranges=frozenset(ranges - set(children)))
             elif ranges < set(children):
                 keep = set(children) - ranges
                 return expression._new(
